@@ -10,6 +10,7 @@ CONSTANTS
   MaxCount = 1000
   TickSteps = {1, 2, 3}
   MaxTracked = 100
+  StaleMark = "ignore"
   SweepCap = 0
   IndexMode = "exact"
   Depth = 16
